@@ -54,6 +54,7 @@ def termSizes (s : Single) : List Nat :=
   (match s.icPDE with | some m => [m.xs.length] | none => []) ++
   (s.boundary.map fun m => m.xs.length) ++
   (match s.norm with | some (_, _, _, xs) => [xs.length] | none => []) ++
+  (match s.normNS with | some (_, _, _, ts, _) => [ts.length] | none => []) ++
   (match s.obs with | some m => [m.xs.length] | none => [])
 
 def wfKeys (p : Params) (s : Single) : Bool :=
@@ -83,6 +84,14 @@ def specNorm (nm : Option (Rat × Rat × (List Rat → Params → Val) × List (
     let m := mean (((List.range xs.length).map fun i => f (xs.getD i []) (sel i)).flatten)
     w * ((m * L - 1) * (m * L - 1))
 
+/-- non-stationary normalisation: time sample `i` sees its own parameters for all normalisation samples -/
+def specNormNS
+    (nm : Option (Rat × Rat × (List Rat → Params → Val) × List (List Rat) × List (List Rat)))
+    (sel : Nat → Params) : Rat :=
+  match nm with
+  | none => 0
+  | some (w, L, f, ts, ss) => normNSOf w L f ts ss sel
+
 /-- initial condition of the ODE loss: one evaluation with the caller's parameters when nothing is
     batched, else the mean over the rows of the parameter batch -/
 def specIcODE (ic : Option (Rat × (List Rat → Params → Val) × List Rat)) (p : Params) (rows : Rows) :
@@ -109,7 +118,7 @@ def specTerms (p : Params) (s : Single) : Terms :=
   { dyn := specDyn s.dyn s.het sel1,
     ic := specIcODE s.icODE p rows + specMseOpt s.icPDE sel1,
     boundary := specMseSum s.boundary sel1,
-    norm := specNorm s.norm sel1,
+    norm := specNorm s.norm sel1 + specNormNS s.normNS sel1,
     obs := specMseOpt s.obs sel2 }
 
 /-- observed outcome of `evaluate`: the terms and the total, or a rejection -/
@@ -128,6 +137,44 @@ def holdsC12 (p : Params) (s : Single) (o : Outcome) : Option String :=
       else if t.obs != e.obs then some "observations-sample-parameters"
       else if tot != t.total then some "total-not-sum-of-terms"
       else none
+
+/-! ### derivative routing (dynamic term) -/
+
+/-- gradient the property prescribes for entry `j` of row `i` of a batched key: the contribution of
+    sample `i` alone (evaluated with its own parameters), gated by the derivative key of `k` -/
+def specGradRow (p : Params) (rows : Rows) (m : MseIn) (df : Tangent) (mask : String → Bool)
+    (k : String) (i j : Nat) : Rat :=
+  if mask k then sampleGrad m.w m.f df (m.xs.getD i []) (override p rows i) k j / (m.xs.length : Nat)
+  else 0
+
+/-- gradient prescribed for entry `j` of the caller's value: none for a batched key -/
+def specGradCaller (p : Params) (rows : Rows) (m : MseIn) (df : Tangent) (mask : String → Bool)
+    (k : String) (j : Nat) : Rat :=
+  if hasKey k rows then 0
+  else if mask k then
+    mean ((List.range m.xs.length).map fun i =>
+      sampleGrad m.w m.f df (m.xs.getD i []) (override p rows i) k j)
+  else 0
+
+/-- observed gradients of the dynamic term: per batched key the `B` rows, per caller key its entries -/
+structure Grads where
+  rows : List (String × List Val)
+  caller : List (String × Val)
+
+def holdsC12Routing (p : Params) (rows : Rows) (m : MseIn) (df : Tangent) (mask : String → Bool)
+    (g : Grads) : Option String :=
+  let rowsOk := rows.all fun r =>
+    match get? r.1 g.rows with
+    | none => false
+    | some gr => (List.range m.xs.length).all fun i =>
+        (gr.getD i []) == ((List.range (r.2.getD i []).length).map fun j => specGradRow p rows m df mask r.1 i j)
+  let callerOk := p.all fun kv =>
+    match get? kv.1 g.caller with
+    | none => false
+    | some gv => gv == ((List.range kv.2.length).map fun j => specGradCaller p rows m df mask kv.1 j)
+  if !rowsOk then some "gradient-into-batch-rows-misrouted"
+  else if !callerOk then some "gradient-into-caller-parameters-misrouted"
+  else none
 
 /-- Metamorphic clause "only the batched keys override the caller's parameters": the same call with
     the caller's values of the *batched* keys replaced by other values returns the same terms. -/
